@@ -334,7 +334,9 @@ theorem applied_separation_R (o : ROpts) (segs : List RSeg) (vars : List Var) (h
   linarith [ha.1, ha.2, hbb.1, hbb.2]
 
 /-- the `satisfied` test: in a satisfied round every solver variable that is not a free segment (fixed
-    segments, channel edges) ended within 0.0001 of its desired position -/
+    segments, channel edges) ended within 0.0001 of its desired position.  (Stated over `vars.zip fps`: variables
+    and solver answers are paired positionally, so "every variable" needs `fps.length = vars.length` — the driver
+    passes one final position per variable; a shorter `fps` leaves the unpaired variables untested.) -/
 theorem satisfied_close (o : ROpts) (vars : List Var) (st : NState) (fps : List Rat)
     (out : StepOut NState) (hstep : nudgeStep o vars st fps = some out) (hs : out.satisfied = true) :
     ∀ vf ∈ vars.zip fps, vf.1.id ≠ freeSegmentID → absQ (vf.2 - vf.1.desired) ≤ tolD :=
